@@ -149,12 +149,22 @@ def shape(ps):
 def gen(ctx):
     rng = random.Random(ctx.seed)
     cases = []
-    info = dict(graphs=0, shapes=set())
+    info = dict(graphs=0, shapes=set(), saves=0)
 
     def add(ps, uses, casing=None, classless=False):
         files = make_ws(ps, uses, rng, casing, classless)
         for order in ("f", "r"):
             cases.append(fc.encode_case("req:" + order, files))
+        # a cycle that comes into the RUNNING server by a save: the class closing it is on disk without its parent clause
+        # at start-up and during the first round, then saved with it
+        for i, par in enumerate(ps):
+            j, path = i, []
+            while isinstance(j, int) and j not in path:
+                path.append(j)
+                j = ps[j]
+            if isinstance(j, int) and j == i and i < len(files) and info["saves"] < (400 if ctx.quick else 10 ** 9):
+                cases.append(fc.encode_case("req:s%d" % i, files))
+                info["saves"] += 1
         info["graphs"] += 1
         info["shapes"].add(shape(ps))
 
